@@ -220,6 +220,17 @@ pub struct FanDesc {
     pub merge: [bool; 3],
 }
 
+/// horizontal bars (A) against vertical bars (B): every pair crosses properly, so the number of crossings is far
+/// larger than the number of edges. Bars are chosen by bitmasks; coordinates are small integers: exact.
+#[derive(Clone, Debug, PartialEq)]
+pub struct BarsDesc {
+    pub k: u8,
+    pub rows: u32,
+    pub cols: u32,
+    /// some bars of C (a third operand): horizontal, shifted by one half
+    pub crows: u32,
+}
+
 #[derive(Clone, Debug, PartialEq)]
 pub struct SelfXDesc {
     pub rings: [Vec<(u16, u16)>; 2],
@@ -245,6 +256,7 @@ pub enum Shape {
     Gen(GenDesc),
     SelfX(SelfXDesc),
     Fan(FanDesc),
+    Bars(BarsDesc),
     /// explicit operands (pinned regression inputs, replay files)
     Raw { a: MP, b: MP, c: MP, exact: bool, selfx: bool },
 }
@@ -513,6 +525,7 @@ impl CaseDesc {
             (Shape::Gen(_), _) => "gen",
             (Shape::SelfX(_), _) => "selfx",
             (Shape::Fan(_), _) => "fan",
+            (Shape::Bars(_), _) => "bars",
             (Shape::Raw { .. }, _) => "raw",
         }
     }
@@ -637,6 +650,15 @@ impl CaseDesc {
                     return Err(Reject::Margin);
                 }
                 Ok(Case { family, a, b, c, exact: false, selfx: false, bits: self.bits })
+            }
+            Shape::Bars(d) => {
+                let k = (d.k as usize).clamp(1, 30);
+                let len = 2.0 * k as f64 + 1.0;
+                let bar = |x0: f64, y0: f64, x1: f64, y1: f64| Polygon::new(LineString(vec![amap(pt(x0, y0)), amap(pt(x1, y0)), amap(pt(x1, y1)), amap(pt(x0, y1)), amap(pt(x0, y0))]), vec![]);
+                let a = MultiPolygon((0..k).filter(|i| d.rows >> i & 1 == 1).map(|i| bar(0.0, 2.0 * i as f64 + 1.0, len, 2.0 * i as f64 + 2.0)).collect::<Vec<_>>());
+                let b = MultiPolygon((0..k).filter(|j| d.cols >> j & 1 == 1).map(|j| bar(2.0 * j as f64 + 1.0, 0.0, 2.0 * j as f64 + 2.0, len)).collect::<Vec<_>>());
+                let c = if want_c { MultiPolygon((0..k).filter(|i| d.crows >> i & 1 == 1).map(|i| bar(0.5, 2.0 * i as f64 + 1.5, len - 0.5, 2.0 * i as f64 + 2.5)).collect::<Vec<_>>()) } else { empty() };
+                Ok(Case { family, a, b, c, exact: true, selfx: false, bits: self.bits })
             }
             Shape::Fan(d) => {
                 // distinct directions, sorted by angle
@@ -796,6 +818,16 @@ pub mod strat {
     pub fn fan_shape() -> BoxedStrategy<Shape> {
         ((-20i32..20, -20i32..20), vec((-6i8..=6, -6i8..=6), 3..14), vec(0u8..8, 14), any::<bool>(), any::<bool>(), any::<bool>())
             .prop_map(|(apex, rays, sectors, m0, m1, m2)| Shape::Fan(FanDesc { apex, rays, sectors, merge: [m0, m1, m2] }))
+            .boxed()
+    }
+
+    pub fn bars_shape(kmax: u8) -> BoxedStrategy<Shape> {
+        (4u8..=kmax, any::<u32>(), any::<u32>(), any::<u32>(), proptest::bool::weighted(0.5))
+            .prop_map(|(k, r, c, cr, full)| {
+                // half of the cases use (almost) all bars: the crossing count is then maximal
+                let (r, c) = if full { (r | 0x7fff_ffff & !(r & 0x3), c | 0x7fff_fffd) } else { (r, c) };
+                Shape::Bars(BarsDesc { k, rows: r, cols: c, crows: cr })
+            })
             .boxed()
     }
 
